@@ -26,11 +26,11 @@ T1(e) == (Ret(e.r) /\ KindOK(e)) \/ IsVE(e.r)
 (* T2: a returned birth date is a real date and agrees with the digits of the number *)
 T2(e) == (e.g = "get_birth_date" /\ Ret(e.r) /\ e.r.t = "date")
             => (/\ RealDate(e.r.date[1], e.r.date[2], e.r.date[3])
-                /\ (HasLayout(e.m) => Agrees(e.m, e.v, e.r.date))
-                /\ (e.m = "it.codicefiscale" => CfAgrees(e.v, e.r.date))
-                /\ (e.m = "se.personnummer" => SeAgrees(e.v, e.r.date)))
+                /\ (e.opt \/ (/\ (HasLayout(e.m) => Agrees(e.m, e.v, e.r.date))      \* e.opt: called with a keyword option (another
+                               /\ (e.m = "it.codicefiscale" => CfAgrees(e.v, e.r.date))  \* century window ...): totality and a real date only
+                               /\ (e.m = "se.personnummer" => SeAgrees(e.v, e.r.date)))))
 (* T3: ... and with the separately returned year and month *)
-T3(e) == (e.g \in {"get_birth_year", "get_birth_month"} /\ Ret(e.r) /\ e.r.t = "int" /\ "get_birth_date" \in DOMAIN Seen(e)
+T3(e) == (~e.opt /\ e.g \in {"get_birth_year", "get_birth_month"} /\ Ret(e.r) /\ e.r.t = "int" /\ "get_birth_date" \in DOMAIN Seen(e)
           /\ Seen(e)["get_birth_date"].t = "date")
             => e.r.int = Seen(e)["get_birth_date"].date[IF e.g = "get_birth_year" THEN 1 ELSE 2]
 (* T5: the parts of split() concatenate to the canonical number (ISMN: in its 13 digit form) *)
@@ -38,10 +38,10 @@ Concat(parts) == FoldLeft(LAMBDA a, p : a \o p, <<>>, parts)
 SplitCanon(m, v) == IF m = "ismn" /\ Len(v) = 10 THEN <<57, 55, 57, 48>> \o SubSeq(v, 2, 10)
                     ELSE IF m = "isbn" /\ Len(v) = 10 THEN <<57, 55, 56>> \o v
                     ELSE v
-T5(e) == (e.g = "split" /\ Ret(e.r) /\ e.m \notin {"isan", "es.cif"})
+T5(e) == (~e.opt /\ e.g = "split" /\ Ret(e.r) /\ e.m \notin {"isan", "es.cif"})
             => Concat(e.r.parts) \in {SplitCanon(e.m, e.v), e.v}
 (* T6: getters of any presentation agree with getters of the canonical number (first event of the session) *)
-T6(e) == (e.g \in DOMAIN Seen(e)) => (e.r.k = Seen(e)[e.g].k /\ e.r.canon = Seen(e)[e.g].canon)
+T6(e) == (~e.opt /\ e.g \in DOMAIN Seen(e)) => (e.r.k = Seen(e)[e.g].k /\ e.r.canon = Seen(e)[e.g].canon)
 ClauseNames == <<"T1", "T2", "T3", "T5", "T6">>
 Clauses(e) == [T1 |-> T1(e), T2 |-> T2(e), T3 |-> T3(e), T5 |-> T5(e), T6 |-> T6(e)]
 Failing(e) == LET c == Clauses(e) IN SelectSeq(ClauseNames, LAMBDA n : ~c[n])
@@ -50,7 +50,7 @@ Step == /\ l <= Len(Trace)
         /\ LET e == Trace[l]  bad == Failing(e)
            IN /\ IF bad = <<>> THEN nrej' = nrej ELSE nrej' = nrej + 1 /\ PrintT(<<"REJ", e.tid, l, bad>>)
               /\ tid0' = e.tid
-              /\ seen' = IF e.g \in DOMAIN Seen(e) THEN Seen(e) ELSE (e.g :> e.r) @@ Seen(e)
+              /\ seen' = IF e.opt \/ e.g \in DOMAIN Seen(e) THEN Seen(e) ELSE (e.g :> e.r) @@ Seen(e)
         /\ l' = l + 1
 Spec == Init /\ [][Step]_<<l, nrej, tid0, seen>>
 Accepted == /\ TLCGet("stats").diameter - 1 = Len(Trace)
